@@ -17,8 +17,11 @@ RULE = ("(a) atom histories from one PRNG (VERIF_SEED): 1-3 groups (valid and in
         "compared state-for-state (result, cache, counters, every bucket) with the model and result-for-result with "
         "the finite map.  (b) mixed histories: every release order of <= 4 handles of each interface family, double "
         "release, use after release, ids of another interface / file / never issued, nested opens of one path in "
-        "different modes, interleavings over up to 3 files, full teardown followed by HPend and a fresh cycle; each "
-        "answer of the library is judged by the abstract handle table.  (c) file machine histories (open/close/"
+        "different modes, interleavings over up to 3 files, full teardown followed by HPend and a fresh cycle; two or three "
+        "files open at once holding objects under identical tag/refs (ordinary, linked-block, compressed, external, chunked "
+        "elements, Vdatas, Vgroups, images, datasets) with whole-content reads through every id, Vinsert with ids of the "
+        "same / another file; each answer of the library is judged by the abstract handle table (identity of the object "
+        "computed from the content returned).  (c) file machine histories (open/close/"
         "start/end, shared paths).  A case is one call; distinct by (history text, position)")
 TRUSTED = ["Coq 8.16.1 kernel (no native_compute; vm_compute only in Examples)",
            "translator gen/gen_consts.py + plugin gen/plugins/c13_atom.py (kinds consts, enums; plugin: atom.c id macros "
@@ -339,9 +342,10 @@ class Shadow:
         dp, dc = self.slots[sp], self.slots[sc]
         ck = "s" if dc["kind"] == "vs" else "g"
         ok = int(dp["kind"] == "vg" and dp["live"] and dp.get("w", False) and dc["kind"] in ("vg", "vs") and dc["live"]
-                 and dp["parent"] == dc["parent"] and sp != sc and (sp, sc) not in self.pairs
+                 and dp["parent"] == dc["parent"] and sp != sc and (sp, dc["kind"], dc.get("idx")) not in self.pairs
+                 and not (dc["kind"] == "vg" and dc.get("idx") == dp.get("idx"))
                  and self.path_w[dp.get("p") or 0])
-        self.pairs.add((sp, sc))
+        self.pairs.add((sp, dc["kind"], dc.get("idx")))      # Vinsert refuses a tag/ref that is already a member
         self.emit("vinsert %d %d %s %d" % (sp, sc, ck, ok))
 
     # ---- use / release ------------------------------------------------------------
@@ -651,6 +655,8 @@ def teardown(sh):
 
 def reinit_history(r):
     ops, sh = rand_history(r, r.randrange(10, 30))
+    if ops and foreign_untyped(ops, len(ops) - 1):
+        return ops                       # ended on a type-confusion call (known finding): nothing after it is meaningful
     teardown(sh)
     sh.emit("hpend 0")
     # fresh cycle on the same process: every interface once more
@@ -850,6 +856,9 @@ def run_mixed(ctx):
             stats["crashes"] += 1
             k = min(len(rl), len(h) - 1)
             sig = ("parent-first:" + cls.split(":", 1)[1]) if cls.startswith("parent-first:") else foreign_untyped(h, k)
+            if sig is None:              # a type-confusion call earlier in the history may have damaged the record
+                for kk in range(k):
+                    sig = sig or foreign_untyped(h, kk)
             if sig and ctx.match_known(sig):
                 stats["known_finding_hits"][sig] = stats["known_finding_hits"].get(sig, 0) + 1
             if not reported:
